@@ -9,6 +9,7 @@ import Driver.Linearize
 import Driver.Context
 import Driver.Hist
 import Driver.Legacy
+import Driver.Nlp
 
 namespace Driver
 
@@ -27,6 +28,7 @@ def dispatch (dom : String) (ops : Array String) : Array String :=
   | "context" => Context.runCase ops
   | "hist" => Hist.runCase ops
   | "legacy" => Legacy.runCase ops
+  | "nlp" => Nlp.runCase ops
   | _ => ops.map (fun _ => "unknown-domain")
 
 end Driver
